@@ -130,6 +130,7 @@ class StoreJudge:
         if self.family in ("fleet", "slot", "cbelt"): self.quiescent = True     # availability is reported explicitly, the triggers run inside the move
         if head.startswith("err") and k in ("adv", "settle", "kstep", "ev"):
             self.v("C20", f"exception escaped the kernel during {k}: {head}")
+            self._belt_broken = True
             return
         newtok = None
         if k in ("rp", "rg"):
@@ -207,9 +208,11 @@ class StoreJudge:
         no retrieval is granted.  `_stall_since` = instant since which that holds without interruption, `_stall_cause` = how
         it began (arrival of the head / a retrieval taking the reserved head / cancellation of the granted retrieval)."""
         INF = 10 ** 9
+        if getattr(self, "_belt_broken", False): return      # a call / the kernel raised: the conveyor's state is unknown
         travel = self.cap * self.sdelay
         since = getattr(self, "_stall_since", None); cause = getattr(self, "_stall_cause", None)
         strictly = since is not None and since < self.now          # the stall began at an earlier instant
+        coarse = op[0] == "adv" and bool(ready_ids)                # a clock move that ran over kernel events: arrival instants unknown
         for iid in ready_ids:
             e = next((x for x in self.inside if x["id"] == iid and x["ready_at"] >= INF), None)
             if e is None:
@@ -217,10 +220,18 @@ class StoreJudge:
             older = [x["id"] for x in self.inside if x["ready_at"] >= INF and x["seq"] < e["seq"]]
             if older:
                 self.v("C12", f"item {iid} reached the exit before items {older}, which entered earlier", "order")
+            if coarse:
+                e["ready_at"] = self.now; e["sure"] = False; self._last_arrival = None
+                continue
             if self.now < e["ptime"] + travel:
                 self.v("C12", f"item {iid} entered at t={e['ptime']} and was offered at t={self.now}, before the belt travel time {travel}", "travel-short")
             if self.now > e["ptime"] + travel and not getattr(self, "_ever_stalled", False):
                 self.v("C12", f"item {iid} entered at t={e['ptime']} and was offered only at t={self.now} although nothing ever waited at the exit (travel time {travel})", "travel-long")
+            la = getattr(self, "_last_arrival", None)
+            if la is not None and self.now < la[1] + self.sdelay:
+                self.v("C13", f"items {la[0]} and {iid} reached the exit only {self.now - la[1]} apart (t={la[1]} and t={self.now}); one item length of belt "
+                              f"travel takes {self.sdelay}: they overlapped on the belt", "overlap")
+            self._last_arrival = (iid, self.now)
             if strictly and not self.acc:
                 self.v("C13", f"non-accumulating conveyor: item {iid} advanced to the exit at t={self.now} while the head item had been waiting there "
                               f"unreserved since t={since} (stall began by {cause})", "moves-while-stalled" if cause != "cancel" else "moves-after-cancel")
@@ -348,6 +359,9 @@ class StoreJudge:
             if head != "ok":
                 self.v("C01", f"put with granted reservation {tid} by its owner failed: {head}")
                 self.v("C07", f"valid put rejected: {head}")
+                if self.family in ("slot", "cbelt"):
+                    self.v("C20", f"a valid put on the conveyor raised {head}", "kernel-exception")
+                    self._belt_broken = True          # whether the item is on the belt is unknown from here on
                 t.state = "used"   # the reservation is gone in any case
                 return
             t.state = "used"
